@@ -194,6 +194,12 @@ func (ex *Exec) runRoot() {
 		for _, m := range ct.Modifies {
 			ex.modAllowed = append(ex.modAllowed, ex.modLocs(en, m)...)
 		}
+		// "havoc K": callers forget K at a call; for the body K is therefore part of its frame
+		for _, h := range ct.Havoc {
+			if h != "" {
+				ex.modAllowed = append(ex.modAllowed, modLoc{kind: "anykey", sub: h})
+			}
+		}
 		for _, gu := range ct.Updates {
 			var s *ESel
 			switch l := gu.LHS.(type) {
